@@ -15,6 +15,7 @@ KINDS = ["k0", "k1", "k2"]
 BASE_WEIGHTS = {
     "add": 30, "move": 12, "remove": 10, "remove_children": 2, "clear": 1, "del": 3,
     "sort": 4, "set_data": 8, "meta": 3, "filter": 3, "copy": 3, "copy_to": 3,
+    "restart": 2,
 }
 
 PROFILES = {
@@ -26,6 +27,9 @@ PROFILES = {
     "C07": {"add": 1.5, "copy": 4, "copy_to": 5},
     "C08": {"filter": 8, "copy": 6},
     "C13": {},
+    "C05": {"restart": 8, "set_data": 1.5},
+    "C12": {"restart": 8, "set_data": 1.5},
+    "C14": {"restart": 8, "set_data": 1.5},
 }
 
 
@@ -546,11 +550,34 @@ def gen_copy_to(rng, cfg, w: World, opid, invalid, steer):
     return op
 
 
+def gen_restart(rng, cfg, w: World, opid, invalid, steer):
+    si = pick_slot(rng, w)
+    op = {"id": opid, "k": "restart", "slot": si}
+    via = cfg.get("restart_via") or rng.choice(["file", "file", "dict"])
+    op["via"] = via
+    if via == "dict":
+        op["json"] = rng.random() < 0.5
+        op["with_mapper"] = rng.random() < 0.3
+        return op
+    op["key_map"] = rng.choice(["default", "off", "custom"])
+    op["value_map"] = rng.choice(["default", "off", "custom"])
+    op["target"] = rng.choice(["path", "path", "stream"])
+    if op["target"] == "path":
+        c = rng.choice([None, None, False, True, "STORED", "DEFLATED", "BZIP2", "LZMA"])
+        if c is not None:
+            op["compression"] = c
+    if rng.random() < 0.4:
+        op["meta"] = {"foo": "bar", "n": opid}
+    if rng.random() < 0.3:
+        op["no_mapper"] = True
+    return op
+
+
 GENERATORS = {
     "add": gen_add, "move": gen_move, "remove": gen_remove,
     "remove_children": gen_remove_children, "clear": gen_clear, "del": gen_del,
     "sort": gen_sort, "set_data": gen_set_data, "meta": gen_meta, "filter": gen_filter,
-    "copy": gen_copy, "copy_to": gen_copy_to,
+    "copy": gen_copy, "copy_to": gen_copy_to, "restart": gen_restart,
 }
 
 FAULT_CBS = {
